@@ -905,7 +905,7 @@ func (p *Parser) parseNameString() ([]byte, parseResult) {
 			return nil, parseResultFailed
 		}
 
-		endOffset = p.r.Offset() + uint32(amlNameLen*segCount)
+		endOffset = p.r.Offset() + uint32(amlNameLen)*uint32(segCount)
 		if endOffset > p.r.pkgEnd {
 			return nil, parseResultFailed
 		}
